@@ -294,8 +294,8 @@ func genSig(r *rng, idx int, st stats) caseOut {
 }
 
 // ---------- stream vset (C15) ----------
-var vsNames = []string{"a", "B", "cd", "Ef", "g", "HH"}
-var vsSubs = []string{"", "", "s", "t", "k=1"}
+var vsNames = []string{"a", "B", "cd", "Ef", "g", "HH", "a-b", "1a", "_x", "ä"}
+var vsSubs = []string{"", "", "s", "t", "k=1", `a"b`, `a\qb`, `x y`}
 
 func genVset(r *rng, idx int, st stats) caseOut {
 	n := r.intn(6)
@@ -344,7 +344,7 @@ func genVset(r *rng, idx int, st stats) caseOut {
 		}
 		for _, t := range tys {
 			typed = append(typed, fmt.Sprintf("(%s, %s)", z(t), opt(set.Typed(typeOfTid(t)))))
-			for _, s := range []string{"", "s", "t", "k=1"} {
+			for _, s := range vsSubs[1:] {
 				typedsub = append(typedsub, fmt.Sprintf("(%s, %s, %s)", z(t), str(s), opt(set.TypedSubtype(typeOfTid(t), s))))
 			}
 		}
